@@ -7,38 +7,52 @@ import (
 	"math/big"
 	"math/rand"
 	"os"
+	"sort"
 	"strings"
 	"testing"
+	"time"
 
 	sdkmath "cosmossdk.io/math"
 	sdk "github.com/cosmos/cosmos-sdk/types"
 	authtypes "github.com/cosmos/cosmos-sdk/x/auth/types"
+	"github.com/cosmos/cosmos-sdk/x/authz"
 	banktypes "github.com/cosmos/cosmos-sdk/x/bank/types"
+	"github.com/cosmos/cosmos-sdk/x/gov"
 	govtypes "github.com/cosmos/cosmos-sdk/x/gov/types"
+	govv1 "github.com/cosmos/cosmos-sdk/x/gov/types/v1"
 
 	simapp "github.com/provenance-io/provenance/app"
 	"github.com/provenance-io/provenance/x/marker"
 	markertypes "github.com/provenance-io/provenance/x/marker/types"
 )
 
-// C05: histories of marker administration on one denom, run through the REAL message handlers
-// (marker Msg server incl. the governance endpoints, bank MsgSend) and the real marker
-// BeginBlocker.  After every operation the harness projects: accepted/rejected, the marker record
-// (status, recorded supply, fixed flag) or its absence, bank SupplyOf(denom) and the balance of
-// every account that can hold the denom (marker account, four users, the marker module's coin
-// pool, the governance account).  Address numbering shared with coq/Marker/Lifecycle.v:
-// 0 = marker account (ESCROW), 1..4 = users, 99 = marker module account, 100 = governance (GOV).
+// C05: histories of marker administration on a world of 2-3 denoms, run through the REAL message
+// handlers (marker Msg server incl. the governance endpoints, bank MsgSend, authz MsgGrant /
+// MsgRevoke, marker MsgUpdateParams) and the real marker BeginBlocker; in every tenth history every
+// governance-authority message goes through the REAL gov module (MsgSubmitProposal with the
+// message, MsgVote, gov EndBlocker executes it).  After every operation the harness projects:
+// accepted/rejected, the module parameters and, per denom, the marker record (status, recorded
+// supply, fixed flag) or its absence, bank SupplyOf(denom) and the balance of EVERY holder of the
+// denom as enumerated by the bank (IterateAllBalances).  Address numbering shared with
+// coq/Marker/MultiLifecycle.v: 1000+d = marker account of denom d (escrow d), 1..4 = users,
+// 99 = marker module account, 100 = governance (GOV), 5000.. = any other holder the bank lists.
 
-const c05Denom = "cfivecoin"
-
-var c05Universe = []int{0, 1, 2, 3, 4, 99, 100}
+// sorted, so that denom order = index order (authz limits are sdk.Coins)
+var c05Denoms = []string{"cfivea", "cfiveb", "cfivec"}
 
 type c05Env struct {
-	t     *testing.T
-	app   *simapp.App
-	base  sdk.Context
-	addrs map[int]sdk.AccAddress
+	t      *testing.T
+	app    *simapp.App
+	base   sdk.Context
+	addrs  map[int]sdk.AccAddress
+	ids    map[string]int
+	extra  int
+	voter  sdk.AccAddress
+	govDep sdk.Coins
+	govVP  time.Duration
 }
+
+func c05Esc(d int) int { return 1000 + d }
 
 func c05Deliver(app *simapp.App, ctx sdk.Context, msg sdk.Msg) error {
 	return try(func() error {
@@ -56,65 +70,142 @@ func c05Deliver(app *simapp.App, ctx sdk.Context, msg sdk.Msg) error {
 	})
 }
 
-type c05Obs struct {
+// viaGov runs msg through the real governance pipeline: a proposal carrying the message is
+// submitted with the full deposit, the only delegator votes yes, and the gov EndBlocker after the
+// voting period tallies and executes it.  The result is "the proposal passed and its message ran".
+func (e *c05Env) viaGov(ctx sdk.Context, msg sdk.Msg) error {
+	return try(func() error {
+		pid, err := e.app.GovKeeper.ProposalID.Peek(ctx)
+		if err != nil {
+			return err
+		}
+		sub, err := govv1.NewMsgSubmitProposal([]sdk.Msg{msg}, e.govDep, e.voter.String(), "c05", "c05 proposal", "c05 proposal", false)
+		if err != nil {
+			return err
+		}
+		if err := c05Deliver(e.app, ctx, sub); err != nil {
+			return fmt.Errorf("submit: %w", err)
+		}
+		if err := c05Deliver(e.app, ctx, govv1.NewMsgVote(e.voter, pid, govv1.OptionYes, "")); err != nil {
+			return fmt.Errorf("vote: %w", err)
+		}
+		later := ctx.WithBlockTime(ctx.BlockTime().Add(e.govVP + time.Second))
+		if err := gov.EndBlocker(later, &e.app.GovKeeper); err != nil {
+			return fmt.Errorf("gov end blocker: %w", err)
+		}
+		p, err := e.app.GovKeeper.Proposals.Get(ctx, pid)
+		if err != nil {
+			return err
+		}
+		if p.Status != govv1.StatusPassed {
+			return fmt.Errorf("proposal %d ended %s: %s", pid, p.Status, p.FailedReason)
+		}
+		return nil
+	})
+}
+
+type c05DObs struct {
 	has     bool
 	status  int
 	msupply sdkmath.Int
 	fixed   bool
 	restr   bool
+	forced  bool // AllowForcedTransfer (read by the generator only)
 	supply  sdkmath.Int
-	bals    map[int]sdkmath.Int
+	bals    map[int]sdkmath.Int // every holder the bank lists
+}
+
+func (o c05DObs) bal(n int) sdkmath.Int {
+	if v, ok := o.bals[n]; ok {
+		return v
+	}
+	return sdkmath.ZeroInt()
+}
+
+type c05Obs struct {
+	maxs sdkmath.Int
+	gov  bool
+	den  []c05DObs
 }
 
 var c05StatusNames = []string{"", "Proposed", "Finalized", "Active", "Cancelled", "Destroyed"}
 
-func (e *c05Env) observe(ctx sdk.Context) c05Obs {
-	o := c05Obs{bals: map[int]sdkmath.Int{}}
-	m, err := e.app.MarkerKeeper.GetMarkerByDenom(ctx, c05Denom)
-	if err == nil && m != nil {
-		o.has = true
-		o.status = int(m.GetStatus())
-		o.msupply = m.GetSupply().Amount
-		o.fixed = m.HasFixedSupply()
-		o.restr = m.GetMarkerType() == markertypes.MarkerType_RestrictedCoin
+func (e *c05Env) idOf(a sdk.AccAddress) int {
+	if n, ok := e.ids[string(a)]; ok {
+		return n
 	}
-	o.supply = e.app.BankKeeper.GetSupply(ctx, c05Denom).Amount
-	for _, n := range c05Universe {
-		o.bals[n] = e.app.BankKeeper.GetBalance(ctx, e.addrs[n], c05Denom).Amount
+	e.extra++
+	n := 5000 + e.extra
+	e.ids[string(a)] = n
+	e.addrs[n] = a
+	return n
+}
+
+func (e *c05Env) observe(ctx sdk.Context, nd int) c05Obs {
+	p := e.app.MarkerKeeper.GetParams(ctx)
+	o := c05Obs{maxs: p.MaxSupply, gov: p.EnableGovernance, den: make([]c05DObs, nd)}
+	idx := map[string]int{}
+	for d := 0; d < nd; d++ {
+		idx[c05Denoms[d]] = d
+		x := c05DObs{bals: map[int]sdkmath.Int{}}
+		m, err := e.app.MarkerKeeper.GetMarkerByDenom(ctx, c05Denoms[d])
+		if err == nil && m != nil {
+			x.has = true
+			x.status = int(m.GetStatus())
+			x.msupply = m.GetSupply().Amount
+			x.fixed = m.HasFixedSupply()
+			x.restr = m.GetMarkerType() == markertypes.MarkerType_RestrictedCoin
+			x.forced = m.AllowsForcedTransfer()
+		}
+		x.supply = e.app.BankKeeper.GetSupply(ctx, c05Denoms[d]).Amount
+		o.den[d] = x
 	}
+	// every balance entry the bank has, whoever holds it
+	e.app.BankKeeper.IterateAllBalances(ctx, func(a sdk.AccAddress, c sdk.Coin) bool {
+		if d, ok := idx[c.Denom]; ok {
+			n := e.idOf(a)
+			o.den[d].bals[n] = o.den[d].bal(n).Add(c.Amount)
+		}
+		return false
+	})
 	return o
 }
 
-func (o c05Obs) coq(ok bool) string {
+func (x c05DObs) coq() string {
 	mk := "None"
-	if o.has {
-		mk = fmt.Sprintf("(Some (%s, %s, %s))", c05StatusNames[o.status], zInt(o.msupply), coqBool(o.fixed))
+	if x.has {
+		mk = fmt.Sprintf("(Some (%s, %s, %s))", c05StatusNames[x.status], zInt(x.msupply), coqBool(x.fixed))
 	}
+	var ks []int
+	for n := range x.bals {
+		ks = append(ks, n)
+	}
+	sort.Ints(ks)
 	var bs []string
-	for _, n := range c05Universe {
-		bs = append(bs, fmt.Sprintf("(%d%%N, %s)", n, zInt(o.bals[n])))
+	for _, n := range ks {
+		bs = append(bs, fmt.Sprintf("(%d%%N, %s)", n, zInt(x.bals[n])))
 	}
-	return fmt.Sprintf("(Build_obs %s %s %s %s)", coqBool(ok), mk, zInt(o.supply), coqList(bs))
+	return fmt.Sprintf("(Build_dobs %s %s %s)", mk, zInt(x.supply), coqList(bs))
 }
 
-func (o c05Obs) outside() sdkmath.Int {
-	s := sdkmath.ZeroInt()
-	for _, n := range c05Universe {
-		if n != 0 {
-			s = s.Add(o.bals[n])
-		}
+func (o c05Obs) coq(ok bool) string {
+	var ds []string
+	for d, x := range o.den {
+		ds = append(ds, fmt.Sprintf("(%d%%N, %s)", d, x.coq()))
 	}
-	return s
+	return fmt.Sprintf("(Build_obs %s %s %s %s)", coqBool(ok), zInt(o.maxs), coqBool(o.gov), coqList(ds))
 }
 
 type c05Op struct {
-	kind string
-	term string
-	desc string
-	run  func(ctx sdk.Context) error
+	kind  string
+	term  string
+	desc  string
+	isGov bool    // carries the governance authority: eligible for the real gov route
+	msg   sdk.Msg // nil for the begin-blocker
+	after func()  // bookkeeping of the generator after an accepted run
 }
 
-func c05Rights(t markertypes.MarkerType, mask int) []markertypes.Access {
+func c05Rights(mask int) []markertypes.Access {
 	var out []markertypes.Access
 	for i := 0; i < 8; i++ {
 		if mask&(1<<i) != 0 {
@@ -140,18 +231,64 @@ func c05Acl(acl [][2]int) string {
 }
 
 // coin builds a coin without the constructor's panics (negative amounts must reach ValidateBasic).
-func c05Coin(a sdkmath.Int) sdk.Coin { return sdk.Coin{Denom: c05Denom, Amount: a} }
+func c05Coin(d int, a sdkmath.Int) sdk.Coin { return sdk.Coin{Denom: c05Denoms[d], Amount: a} }
 
-type c05Gen struct {
-	e       *c05Env
-	r       *rand.Rand
-	maxs    sdkmath.Int
+type c05DGen struct {
 	manager int // who we believe manages the marker (-1 unknown)
 	recall  bool
-	restr   bool
+}
+
+type c05Gen struct {
+	e      *c05Env
+	r      *rand.Rand
+	nd     int
+	dg     []*c05DGen
+	// (granter, grantee) -> what we believe is left of the live authz grant's limit, per denom
+	grants map[[2]int]map[int]sdkmath.Int
 }
 
 func (g *c05Gen) user() int { return 1 + g.r.Intn(4) }
+
+// grantKeys lists the known grants in a fixed order (map iteration order must not leak into the run).
+func (g *c05Gen) grantKeys() [][2]int {
+	var ks [][2]int
+	for k := range g.grants {
+		ks = append(ks, k)
+	}
+	sort.Slice(ks, func(i, j int) bool { return ks[i][0] < ks[j][0] || (ks[i][0] == ks[j][0] && ks[i][1] < ks[j][1]) })
+	return ks
+}
+
+func (g *c05Gen) hasGrant(granter, grantee int) bool { _, ok := g.grants[[2]int{granter, grantee}]; return ok }
+
+// grantLeft is the remaining limit of denom d we believe the grant has (zero when none).
+func (g *c05Gen) grantLeft(granter, grantee, d int) sdkmath.Int {
+	if l, ok := g.grants[[2]int{granter, grantee}]; ok {
+		if v, ok := l[d]; ok {
+			return v
+		}
+	}
+	return sdkmath.ZeroInt()
+}
+
+// usedGrant books an accepted transfer against the grant it went through.
+func (g *c05Gen) usedGrant(granter, grantee, d int, amt sdkmath.Int) {
+	k := [2]int{granter, grantee}
+	l, ok := g.grants[k]
+	if !ok {
+		return
+	}
+	if v, ok := l[d]; ok {
+		if v.GT(amt) {
+			l[d] = v.Sub(amt)
+		} else {
+			delete(l, d)
+		}
+	}
+	if len(l) == 0 {
+		delete(g.grants, k)
+	}
+}
 
 // holder prefers address 1 (created with every right) over a random user.
 func (g *c05Gen) holder() int {
@@ -161,9 +298,9 @@ func (g *c05Gen) holder() int {
 	return g.user()
 }
 
-func (g *c05Gen) mgr() int {
-	if g.manager > 0 && g.r.Intn(100) < 80 {
-		return g.manager
+func (g *c05Gen) mgr(d int) int {
+	if g.dg[d].manager > 0 && g.r.Intn(100) < 80 {
+		return g.dg[d].manager
 	}
 	return g.user()
 }
@@ -175,11 +312,25 @@ func (g *c05Gen) authority() int {
 	return g.user()
 }
 
-func (g *c05Gen) target() int {
-	if g.r.Intn(12) == 0 {
-		return 0
+func (g *c05Gen) otherDenom(d int) int {
+	e := g.r.Intn(g.nd - 1)
+	if e >= d {
+		e++
 	}
-	return g.user()
+	return e
+}
+
+// target: mostly a user, sometimes the marker's own account, sometimes ANOTHER marker's account
+// (cross-holdings).
+func (g *c05Gen) target(d int) int {
+	switch x := g.r.Intn(24); {
+	case x < 2:
+		return c05Esc(d)
+	case x < 5:
+		return c05Esc(g.otherDenom(d))
+	default:
+		return g.user()
+	}
 }
 
 // around picks an amount near x: x itself, its neighbours, a fraction, small values, zero.
@@ -211,16 +362,31 @@ func (g *c05Gen) around(x sdkmath.Int) sdkmath.Int {
 	}
 }
 
+// within picks a positive amount that x covers (x itself, a fraction), for operations meant to succeed.
+func (g *c05Gen) within(x sdkmath.Int) sdkmath.Int {
+	if !x.IsPositive() {
+		return sdkmath.NewInt(int64(1 + g.r.Intn(20)))
+	}
+	switch g.r.Intn(8) {
+	case 0, 1:
+		return x
+	case 2:
+		return x.AddRaw(1)
+	default:
+		return sdkmath.NewIntFromBigInt(new(big.Int).Rand(g.r, x.BigInt())).AddRaw(1)
+	}
+}
+
 func (g *c05Gen) small() sdkmath.Int { return sdkmath.NewInt(int64(1 + g.r.Intn(40))) }
 
-func (g *c05Gen) initialSupply() sdkmath.Int {
+func (g *c05Gen) initialSupply(maxs sdkmath.Int) sdkmath.Int {
 	switch g.r.Intn(10) {
 	case 0:
 		return sdkmath.ZeroInt()
 	case 1:
-		return g.maxs
+		return maxs
 	case 2:
-		return g.maxs.AddRaw(1)
+		return maxs.AddRaw(1)
 	case 3:
 		return sdkmath.NewInt(1)
 	case 4, 5:
@@ -252,10 +418,10 @@ func (g *c05Gen) aclFor(t markertypes.MarkerType) [][2]int {
 	return acl
 }
 
-func (g *c05Gen) grants(t markertypes.MarkerType, acl [][2]int) []markertypes.AccessGrant {
+func (g *c05Gen) grantsOf(acl [][2]int) []markertypes.AccessGrant {
 	out := []markertypes.AccessGrant{}
 	for _, a := range acl {
-		out = append(out, markertypes.AccessGrant{Address: g.e.addrs[a[0]].String(), Permissions: c05Rights(t, a[1])})
+		out = append(out, markertypes.AccessGrant{Address: g.e.addrs[a[0]].String(), Permissions: c05Rights(a[1])})
 	}
 	return out
 }
@@ -267,7 +433,9 @@ func (g *c05Gen) typ() (markertypes.MarkerType, string) {
 	return markertypes.MarkerType_RestrictedCoin, "Restricted"
 }
 
-func (g *c05Gen) opAdd(gov bool) c05Op {
+func on(d int, s string) string { return fmt.Sprintf("MOn %d%%N (%s)", d, s) }
+
+func (g *c05Gen) opAdd(d int, gov bool, o c05Obs) c05Op {
 	e := g.e
 	t, tn := g.typ()
 	from := g.holder()
@@ -281,7 +449,7 @@ func (g *c05Gen) opAdd(gov bool) c05Op {
 	} else if g.r.Intn(25) == 0 {
 		status = 3 + g.r.Intn(3)
 	}
-	amt := g.initialSupply()
+	amt := g.initialSupply(o.maxs)
 	fx := g.r.Intn(2) == 0
 	gv := g.r.Intn(3) != 0
 	fr := t == markertypes.MarkerType_RestrictedCoin && g.r.Intn(3) == 0
@@ -303,8 +471,8 @@ func (g *c05Gen) opAdd(gov bool) c05Op {
 		mgrS = e.addrs[mgr].String()
 	}
 	msg := &markertypes.MsgAddMarkerRequest{
-		Amount: c05Coin(amt), Manager: mgrS, FromAddress: e.addrs[from].String(),
-		Status: markertypes.MarkerStatus(status), MarkerType: t, AccessList: g.grants(t, acl),
+		Amount: c05Coin(d, amt), Manager: mgrS, FromAddress: e.addrs[from].String(),
+		Status: markertypes.MarkerStatus(status), MarkerType: t, AccessList: g.grantsOf(acl),
 		SupplyFixed: fx, AllowGovernanceControl: gv, AllowForcedTransfer: fr,
 	}
 	who := mgr
@@ -312,23 +480,19 @@ func (g *c05Gen) opAdd(gov bool) c05Op {
 		who = from
 	}
 	return c05Op{
-		kind: map[bool]string{false: "add", true: "gov-add"}[gov],
-		term: fmt.Sprintf("OAdd %d%%N %s %s %s %s %s %s %s %s", from, c05StatusNames[status], zInt(amt), coqBool(fx), coqBool(gv), tn, coqBool(fr), c05OptAddr(mgr), c05Acl(acl)),
-		desc: fmt.Sprintf("add from=%d status=%s supply=%s fixed=%v gov=%v type=%s forced=%v manager=%d acl=%v", from, c05StatusNames[status], amt, fx, gv, tn, fr, mgr, acl),
-		run: func(ctx sdk.Context) error {
-			err := c05Deliver(e.app, ctx, msg)
-			if err == nil {
-				g.manager = who
-			}
-			return err
-		},
+		kind:  map[bool]string{false: "add", true: "gov-add"}[gov],
+		isGov: from == 100,
+		term:  on(d, fmt.Sprintf("OAdd %d%%N %s %s %s %s %s %s %s %s", from, c05StatusNames[status], zInt(amt), coqBool(fx), coqBool(gv), tn, coqBool(fr), c05OptAddr(mgr), c05Acl(acl))),
+		desc:  fmt.Sprintf("[%s] add from=%d status=%s supply=%s fixed=%v gov=%v type=%s forced=%v manager=%d acl=%v", c05Denoms[d], from, c05StatusNames[status], amt, fx, gv, tn, fr, mgr, acl),
+		msg:   msg,
+		after: func() { g.dg[d].manager = who },
 	}
 }
 
-func (g *c05Gen) opAddFinAct() c05Op {
+func (g *c05Gen) opAddFinAct(d int, o c05Obs) c05Op {
 	e := g.e
 	t, tn := g.typ()
-	amt := g.initialSupply()
+	amt := g.initialSupply(o.maxs)
 	fx := g.r.Intn(2) == 0
 	gv := g.r.Intn(3) != 0
 	fr := t == markertypes.MarkerType_RestrictedCoin && g.r.Intn(3) == 0
@@ -342,150 +506,192 @@ func (g *c05Gen) opAddFinAct() c05Op {
 		mgrS = e.addrs[mgr].String()
 	}
 	msg := &markertypes.MsgAddFinalizeActivateMarkerRequest{
-		Amount: c05Coin(amt), Manager: mgrS, FromAddress: e.addrs[g.user()].String(), MarkerType: t,
-		AccessList: g.grants(t, acl), SupplyFixed: fx, AllowGovernanceControl: gv, AllowForcedTransfer: fr,
+		Amount: c05Coin(d, amt), Manager: mgrS, FromAddress: e.addrs[g.user()].String(), MarkerType: t,
+		AccessList: g.grantsOf(acl), SupplyFixed: fx, AllowGovernanceControl: gv, AllowForcedTransfer: fr,
 	}
 	return c05Op{
 		kind: "add-finalize-activate",
-		term: fmt.Sprintf("OAddFinAct %s %s %s %s %s %s %s", zInt(amt), coqBool(fx), coqBool(gv), tn, coqBool(fr), c05OptAddr(mgr), c05Acl(acl)),
-		desc: fmt.Sprintf("add-finalize-activate supply=%s fixed=%v gov=%v type=%s forced=%v manager=%d acl=%v", amt, fx, gv, tn, fr, mgr, acl),
-		run:  func(ctx sdk.Context) error { return c05Deliver(e.app, ctx, msg) },
+		term: on(d, fmt.Sprintf("OAddFinAct %s %s %s %s %s %s %s", zInt(amt), coqBool(fx), coqBool(gv), tn, coqBool(fr), c05OptAddr(mgr), c05Acl(acl))),
+		desc: fmt.Sprintf("[%s] add-finalize-activate supply=%s fixed=%v gov=%v type=%s forced=%v manager=%d acl=%v", c05Denoms[d], amt, fx, gv, tn, fr, mgr, acl),
+		msg:  msg,
 	}
 }
 
-func (g *c05Gen) simple(kind string, caller int) c05Op {
-	e := g.e
-	a := e.addrs[caller].String()
+func (g *c05Gen) simple(d int, kind string, caller int) c05Op {
+	a := g.e.addrs[caller].String()
+	dn := c05Denoms[d]
 	var msg sdk.Msg
 	var con string
 	switch kind {
 	case "finalize":
-		msg, con = &markertypes.MsgFinalizeRequest{Denom: c05Denom, Administrator: a}, "OFinalize"
+		msg, con = &markertypes.MsgFinalizeRequest{Denom: dn, Administrator: a}, "OFinalize"
 	case "activate":
-		msg, con = &markertypes.MsgActivateRequest{Denom: c05Denom, Administrator: a}, "OActivate"
+		msg, con = &markertypes.MsgActivateRequest{Denom: dn, Administrator: a}, "OActivate"
 	case "cancel":
-		msg, con = &markertypes.MsgCancelRequest{Denom: c05Denom, Administrator: a}, "OCancel"
+		msg, con = &markertypes.MsgCancelRequest{Denom: dn, Administrator: a}, "OCancel"
 	case "delete":
-		msg, con = &markertypes.MsgDeleteRequest{Denom: c05Denom, Administrator: a}, "ODelete"
+		msg, con = &markertypes.MsgDeleteRequest{Denom: dn, Administrator: a}, "ODelete"
 	}
-	return c05Op{kind: kind, term: fmt.Sprintf("%s %d%%N", con, caller), desc: fmt.Sprintf("%s by %d", kind, caller),
-		run: func(ctx sdk.Context) error { return c05Deliver(e.app, ctx, msg) }}
+	return c05Op{kind: kind, term: on(d, fmt.Sprintf("%s %d%%N", con, caller)), desc: fmt.Sprintf("[%s] %s by %d", dn, kind, caller), msg: msg}
 }
 
-func (g *c05Gen) opMint(caller int, amt sdkmath.Int) c05Op {
+func (g *c05Gen) opMint(d, caller int, amt sdkmath.Int) c05Op {
+	msg := &markertypes.MsgMintRequest{Amount: c05Coin(d, amt), Administrator: g.e.addrs[caller].String()}
+	return c05Op{kind: "mint", term: on(d, fmt.Sprintf("OMint %d%%N %s", caller, zInt(amt))), desc: fmt.Sprintf("[%s] mint %s by %d", c05Denoms[d], amt, caller), msg: msg}
+}
+
+func (g *c05Gen) opBurn(d, caller int, amt sdkmath.Int) c05Op {
+	msg := &markertypes.MsgBurnRequest{Amount: c05Coin(d, amt), Administrator: g.e.addrs[caller].String()}
+	return c05Op{kind: "burn", term: on(d, fmt.Sprintf("OBurn %d%%N %s", caller, zInt(amt))), desc: fmt.Sprintf("[%s] burn %s by %d", c05Denoms[d], amt, caller), msg: msg}
+}
+
+func (g *c05Gen) opWithdraw(d, caller, to int, amt sdkmath.Int) c05Op {
 	e := g.e
-	msg := &markertypes.MsgMintRequest{Amount: c05Coin(amt), Administrator: e.addrs[caller].String()}
-	return c05Op{kind: "mint", term: fmt.Sprintf("OMint %d%%N %s", caller, zInt(amt)), desc: fmt.Sprintf("mint %s by %d", amt, caller),
-		run: func(ctx sdk.Context) error { return c05Deliver(e.app, ctx, msg) }}
+	msg := &markertypes.MsgWithdrawRequest{Denom: c05Denoms[d], Administrator: e.addrs[caller].String(), ToAddress: e.addrs[to].String(),
+		Amount: sdk.Coins{c05Coin(d, amt)}}
+	return c05Op{kind: "withdraw", term: on(d, fmt.Sprintf("OWithdraw %d%%N %d%%N %s", caller, to, zInt(amt))), desc: fmt.Sprintf("[%s] withdraw %s to %d by %d", c05Denoms[d], amt, to, caller), msg: msg}
 }
 
-func (g *c05Gen) opBurn(caller int, amt sdkmath.Int) c05Op {
+// coins of denom x lying in marker d's account are withdrawn by d's administrator
+func (g *c05Gen) opWithdrawOther(d, caller, to, x int, amt sdkmath.Int) c05Op {
 	e := g.e
-	msg := &markertypes.MsgBurnRequest{Amount: c05Coin(amt), Administrator: e.addrs[caller].String()}
-	return c05Op{kind: "burn", term: fmt.Sprintf("OBurn %d%%N %s", caller, zInt(amt)), desc: fmt.Sprintf("burn %s by %d", amt, caller),
-		run: func(ctx sdk.Context) error { return c05Deliver(e.app, ctx, msg) }}
+	msg := &markertypes.MsgWithdrawRequest{Denom: c05Denoms[d], Administrator: e.addrs[caller].String(), ToAddress: e.addrs[to].String(),
+		Amount: sdk.Coins{c05Coin(x, amt)}}
+	return c05Op{kind: "withdraw-other-denom", term: fmt.Sprintf("MWithdrawOther %d%%N %d%%N %d%%N %d%%N %s", d, caller, to, x, zInt(amt)),
+		desc: fmt.Sprintf("[%s] withdraw %s%s to %d by %d", c05Denoms[d], amt, c05Denoms[x], to, caller), msg: msg}
 }
 
-func (g *c05Gen) opWithdraw(caller, to int, amt sdkmath.Int) c05Op {
+func (g *c05Gen) opTransfer(d, admin, from, to int, amt sdkmath.Int) c05Op {
 	e := g.e
-	msg := &markertypes.MsgWithdrawRequest{Denom: c05Denom, Administrator: e.addrs[caller].String(), ToAddress: e.addrs[to].String(),
-		Amount: sdk.Coins{c05Coin(amt)}}
-	return c05Op{kind: "withdraw", term: fmt.Sprintf("OWithdraw %d%%N %d%%N %s", caller, to, zInt(amt)), desc: fmt.Sprintf("withdraw %s to %d by %d", amt, to, caller),
-		run: func(ctx sdk.Context) error { return c05Deliver(e.app, ctx, msg) }}
+	msg := &markertypes.MsgTransferRequest{Amount: c05Coin(d, amt), Administrator: e.addrs[admin].String(), FromAddress: e.addrs[from].String(), ToAddress: e.addrs[to].String()}
+	return c05Op{kind: "transfer", term: fmt.Sprintf("MTransfer %d%%N %d%%N %d%%N %d%%N %s", d, admin, from, to, zInt(amt)), desc: fmt.Sprintf("[%s] transfer %s %d->%d by %d", c05Denoms[d], amt, from, to, admin), msg: msg}
 }
 
-func (g *c05Gen) opTransfer(admin, from, to int, amt sdkmath.Int) c05Op {
+func (g *c05Gen) opSend(d, from, to int, amt sdkmath.Int) c05Op {
 	e := g.e
-	msg := &markertypes.MsgTransferRequest{Amount: c05Coin(amt), Administrator: e.addrs[admin].String(), FromAddress: e.addrs[from].String(), ToAddress: e.addrs[to].String()}
-	return c05Op{kind: "transfer", term: fmt.Sprintf("OTransfer %d%%N %d%%N %d%%N %s", admin, from, to, zInt(amt)), desc: fmt.Sprintf("transfer %s %d->%d by %d", amt, from, to, admin),
-		run: func(ctx sdk.Context) error { return c05Deliver(e.app, ctx, msg) }}
+	msg := &banktypes.MsgSend{FromAddress: e.addrs[from].String(), ToAddress: e.addrs[to].String(), Amount: sdk.Coins{c05Coin(d, amt)}}
+	return c05Op{kind: "send", term: on(d, fmt.Sprintf("OSend %d%%N %d%%N %s", from, to, zInt(amt))), desc: fmt.Sprintf("[%s] bank send %s %d->%d", c05Denoms[d], amt, from, to), msg: msg}
 }
 
-func (g *c05Gen) opSend(from, to int, amt sdkmath.Int) c05Op {
+func (g *c05Gen) opGrant(d, caller, grantee, mask int) c05Op {
 	e := g.e
-	msg := &banktypes.MsgSend{FromAddress: e.addrs[from].String(), ToAddress: e.addrs[to].String(), Amount: sdk.Coins{c05Coin(amt)}}
-	return c05Op{kind: "send", term: fmt.Sprintf("OSend %d%%N %d%%N %s", from, to, zInt(amt)), desc: fmt.Sprintf("bank send %s %d->%d", amt, from, to),
-		run: func(ctx sdk.Context) error { return c05Deliver(e.app, ctx, msg) }}
+	msg := &markertypes.MsgAddAccessRequest{Denom: c05Denoms[d], Administrator: e.addrs[caller].String(),
+		Access: []markertypes.AccessGrant{{Address: e.addrs[grantee].String(), Permissions: c05Rights(mask)}}}
+	return c05Op{kind: "grant", term: on(d, fmt.Sprintf("OGrant %d%%N %d%%N %d%%N", caller, grantee, mask)), desc: fmt.Sprintf("[%s] grant %d to %d by %d", c05Denoms[d], mask, grantee, caller), msg: msg}
 }
 
-func (g *c05Gen) opGrant(caller, grantee, mask int) c05Op {
+func (g *c05Gen) opRevoke(d, caller, a int) c05Op {
 	e := g.e
-	msg := &markertypes.MsgAddAccessRequest{Denom: c05Denom, Administrator: e.addrs[caller].String(),
-		Access: []markertypes.AccessGrant{{Address: e.addrs[grantee].String(), Permissions: c05Rights(0, mask)}}}
-	return c05Op{kind: "grant", term: fmt.Sprintf("OGrant %d%%N %d%%N %d%%N", caller, grantee, mask), desc: fmt.Sprintf("grant %d to %d by %d", mask, grantee, caller),
-		run: func(ctx sdk.Context) error { return c05Deliver(e.app, ctx, msg) }}
+	msg := &markertypes.MsgDeleteAccessRequest{Denom: c05Denoms[d], Administrator: e.addrs[caller].String(), RemovedAddress: e.addrs[a].String()}
+	return c05Op{kind: "revoke", term: on(d, fmt.Sprintf("ORevoke %d%%N %d%%N", caller, a)), desc: fmt.Sprintf("[%s] revoke %d by %d", c05Denoms[d], a, caller), msg: msg}
 }
 
-func (g *c05Gen) opRevoke(caller, a int) c05Op {
-	e := g.e
-	msg := &markertypes.MsgDeleteAccessRequest{Denom: c05Denom, Administrator: e.addrs[caller].String(), RemovedAddress: e.addrs[a].String()}
-	return c05Op{kind: "revoke", term: fmt.Sprintf("ORevoke %d%%N %d%%N", caller, a), desc: fmt.Sprintf("revoke %d by %d", a, caller),
-		run: func(ctx sdk.Context) error { return c05Deliver(e.app, ctx, msg) }}
-}
-
-func (g *c05Gen) opGovInc(auth int, amt sdkmath.Int, target int) c05Op {
+func (g *c05Gen) opGovInc(d, auth int, amt sdkmath.Int, target int) c05Op {
 	e := g.e
 	ts := ""
 	if target >= 0 {
 		ts = e.addrs[target].String()
 	}
-	msg := &markertypes.MsgSupplyIncreaseProposalRequest{Amount: c05Coin(amt), TargetAddress: ts, Authority: e.addrs[auth].String()}
-	return c05Op{kind: "gov-supply-increase", term: fmt.Sprintf("OGovSupplyIncrease %d%%N %s %s", auth, zInt(amt), c05OptAddr(target)),
-		desc: fmt.Sprintf("gov supply increase %s target=%d authority=%d", amt, target, auth),
-		run:  func(ctx sdk.Context) error { return c05Deliver(e.app, ctx, msg) }}
+	msg := &markertypes.MsgSupplyIncreaseProposalRequest{Amount: c05Coin(d, amt), TargetAddress: ts, Authority: e.addrs[auth].String()}
+	return c05Op{kind: "gov-supply-increase", isGov: auth == 100, term: on(d, fmt.Sprintf("OGovSupplyIncrease %d%%N %s %s", auth, zInt(amt), c05OptAddr(target))),
+		desc: fmt.Sprintf("[%s] gov supply increase %s target=%d authority=%d", c05Denoms[d], amt, target, auth), msg: msg}
 }
 
-func (g *c05Gen) opGovDec(auth int, amt sdkmath.Int) c05Op {
-	e := g.e
-	msg := &markertypes.MsgSupplyDecreaseProposalRequest{Amount: c05Coin(amt), Authority: e.addrs[auth].String()}
-	return c05Op{kind: "gov-supply-decrease", term: fmt.Sprintf("OGovSupplyDecrease %d%%N %s", auth, zInt(amt)),
-		desc: fmt.Sprintf("gov supply decrease %s authority=%d", amt, auth),
-		run:  func(ctx sdk.Context) error { return c05Deliver(e.app, ctx, msg) }}
+func (g *c05Gen) opGovDec(d, auth int, amt sdkmath.Int) c05Op {
+	msg := &markertypes.MsgSupplyDecreaseProposalRequest{Amount: c05Coin(d, amt), Authority: g.e.addrs[auth].String()}
+	return c05Op{kind: "gov-supply-decrease", isGov: auth == 100, term: on(d, fmt.Sprintf("OGovSupplyDecrease %d%%N %s", auth, zInt(amt))),
+		desc: fmt.Sprintf("[%s] gov supply decrease %s authority=%d", c05Denoms[d], amt, auth), msg: msg}
 }
 
-func (g *c05Gen) opGovStatus(auth, status int) c05Op {
-	e := g.e
-	msg := &markertypes.MsgChangeStatusProposalRequest{Denom: c05Denom, NewStatus: markertypes.MarkerStatus(status), Authority: e.addrs[auth].String()}
-	return c05Op{kind: "gov-change-status", term: fmt.Sprintf("OGovChangeStatus %d%%N %s", auth, c05StatusNames[status]),
-		desc: fmt.Sprintf("gov change status to %s authority=%d", c05StatusNames[status], auth),
-		run:  func(ctx sdk.Context) error { return c05Deliver(e.app, ctx, msg) }}
+func (g *c05Gen) opGovStatus(d, auth, status int) c05Op {
+	msg := &markertypes.MsgChangeStatusProposalRequest{Denom: c05Denoms[d], NewStatus: markertypes.MarkerStatus(status), Authority: g.e.addrs[auth].String()}
+	return c05Op{kind: "gov-change-status", isGov: auth == 100, term: on(d, fmt.Sprintf("OGovChangeStatus %d%%N %s", auth, c05StatusNames[status])),
+		desc: fmt.Sprintf("[%s] gov change status to %s authority=%d", c05Denoms[d], c05StatusNames[status], auth), msg: msg}
 }
 
-func (g *c05Gen) opGovWithdraw(auth, to int, amt sdkmath.Int) c05Op {
+func (g *c05Gen) opGovWithdraw(d, auth, to int, amt sdkmath.Int) c05Op {
 	e := g.e
-	msg := &markertypes.MsgWithdrawEscrowProposalRequest{Denom: c05Denom, Amount: sdk.Coins{c05Coin(amt)}, TargetAddress: e.addrs[to].String(), Authority: e.addrs[auth].String()}
-	return c05Op{kind: "gov-withdraw-escrow", term: fmt.Sprintf("OGovWithdrawEscrow %d%%N %d%%N %s", auth, to, zInt(amt)),
-		desc: fmt.Sprintf("gov withdraw escrow %s to %d authority=%d", amt, to, auth),
-		run:  func(ctx sdk.Context) error { return c05Deliver(e.app, ctx, msg) }}
+	msg := &markertypes.MsgWithdrawEscrowProposalRequest{Denom: c05Denoms[d], Amount: sdk.Coins{c05Coin(d, amt)}, TargetAddress: e.addrs[to].String(), Authority: e.addrs[auth].String()}
+	return c05Op{kind: "gov-withdraw-escrow", isGov: auth == 100, term: on(d, fmt.Sprintf("OGovWithdrawEscrow %d%%N %d%%N %s", auth, to, zInt(amt))),
+		desc: fmt.Sprintf("[%s] gov withdraw escrow %s to %d authority=%d", c05Denoms[d], amt, to, auth), msg: msg}
 }
 
-func (g *c05Gen) opGovSetAdmin(auth, grantee, mask int) c05Op {
+func (g *c05Gen) opGovWithdrawOther(auth, d, to, x int, amt sdkmath.Int) c05Op {
 	e := g.e
-	msg := &markertypes.MsgSetAdministratorProposalRequest{Denom: c05Denom, Authority: e.addrs[auth].String(),
-		Access: []markertypes.AccessGrant{{Address: e.addrs[grantee].String(), Permissions: c05Rights(0, mask)}}}
-	return c05Op{kind: "gov-set-admin", term: fmt.Sprintf("OGovSetAdmin %d%%N %d%%N %d%%N", auth, grantee, mask),
-		desc: fmt.Sprintf("gov set administrator %d rights %d authority=%d", grantee, mask, auth),
-		run:  func(ctx sdk.Context) error { return c05Deliver(e.app, ctx, msg) }}
+	msg := &markertypes.MsgWithdrawEscrowProposalRequest{Denom: c05Denoms[d], Amount: sdk.Coins{c05Coin(x, amt)}, TargetAddress: e.addrs[to].String(), Authority: e.addrs[auth].String()}
+	return c05Op{kind: "gov-withdraw-escrow-other-denom", isGov: auth == 100, term: fmt.Sprintf("MGovWithdrawOther %d%%N %d%%N %d%%N %d%%N %s", auth, d, to, x, zInt(amt)),
+		desc: fmt.Sprintf("[%s] gov withdraw escrow %s%s to %d authority=%d", c05Denoms[d], amt, c05Denoms[x], to, auth), msg: msg}
 }
 
-func (g *c05Gen) opGovRemoveAdmin(auth, a int) c05Op {
+func (g *c05Gen) opGovSetAdmin(d, auth, grantee, mask int) c05Op {
 	e := g.e
-	msg := &markertypes.MsgRemoveAdministratorProposalRequest{Denom: c05Denom, Authority: e.addrs[auth].String(), RemovedAddress: []string{e.addrs[a].String()}}
-	return c05Op{kind: "gov-remove-admin", term: fmt.Sprintf("OGovRemoveAdmin %d%%N %d%%N", auth, a),
-		desc: fmt.Sprintf("gov remove administrator %d authority=%d", a, auth),
-		run:  func(ctx sdk.Context) error { return c05Deliver(e.app, ctx, msg) }}
+	msg := &markertypes.MsgSetAdministratorProposalRequest{Denom: c05Denoms[d], Authority: e.addrs[auth].String(),
+		Access: []markertypes.AccessGrant{{Address: e.addrs[grantee].String(), Permissions: c05Rights(mask)}}}
+	return c05Op{kind: "gov-set-admin", isGov: auth == 100, term: on(d, fmt.Sprintf("OGovSetAdmin %d%%N %d%%N %d%%N", auth, grantee, mask)),
+		desc: fmt.Sprintf("[%s] gov set administrator %d rights %d authority=%d", c05Denoms[d], grantee, mask, auth), msg: msg}
 }
 
-func (g *c05Gen) opBeginBlock() c05Op {
+func (g *c05Gen) opGovRemoveAdmin(d, auth, a int) c05Op {
 	e := g.e
-	return c05Op{kind: "begin-block", term: "OBeginBlock", desc: "begin block",
-		run: func(ctx sdk.Context) error {
-			return try(func() error { marker.BeginBlocker(ctx, e.app.MarkerKeeper, e.app.BankKeeper); return nil })
+	msg := &markertypes.MsgRemoveAdministratorProposalRequest{Denom: c05Denoms[d], Authority: e.addrs[auth].String(), RemovedAddress: []string{e.addrs[a].String()}}
+	return c05Op{kind: "gov-remove-admin", isGov: auth == 100, term: on(d, fmt.Sprintf("OGovRemoveAdmin %d%%N %d%%N", auth, a)),
+		desc: fmt.Sprintf("[%s] gov remove administrator %d authority=%d", c05Denoms[d], a, auth), msg: msg}
+}
+
+func (g *c05Gen) opSetParams(auth int, maxs sdkmath.Int, gv bool, o c05Obs) c05Op {
+	e := g.e
+	cur := e.app.MarkerKeeper.GetParams(e.base)
+	msg := &markertypes.MsgUpdateParamsRequest{Authority: e.addrs[auth].String(),
+		Params: markertypes.Params{MaxSupply: maxs, EnableGovernance: gv, UnrestrictedDenomRegex: cur.UnrestrictedDenomRegex}}
+	return c05Op{kind: "update-params", isGov: auth == 100, term: fmt.Sprintf("MSetParams %d%%N %s %s", auth, zInt(maxs), coqBool(gv)),
+		desc: fmt.Sprintf("update params max_supply=%s enable_governance=%v authority=%d (was %s)", maxs, gv, auth, o.maxs), msg: msg}
+}
+
+func (g *c05Gen) opAuthzGrant(granter, grantee int, limit map[int]sdkmath.Int, allow []int) c05Op {
+	e := g.e
+	var coins sdk.Coins
+	var lim []string
+	for d := 0; d < len(c05Denoms); d++ {
+		if v, ok := limit[d]; ok {
+			coins = append(coins, c05Coin(d, v))
+			lim = append(lim, fmt.Sprintf("(%d%%N, %s)", d, zInt(v)))
+		}
+	}
+	var al []sdk.AccAddress
+	var als []string
+	for _, a := range allow {
+		al = append(al, e.addrs[a])
+		als = append(als, fmt.Sprintf("%d%%N", a))
+	}
+	msg, err := authz.NewMsgGrant(e.addrs[granter], e.addrs[grantee], markertypes.NewMarkerTransferAuthorization(coins, al), nil)
+	if err != nil {
+		e.t.Fatal(err)
+	}
+	return c05Op{kind: "authz-grant", term: fmt.Sprintf("MAuthzGrant %d%%N %d%%N %s %s", granter, grantee, coqList(lim), coqList(als)),
+		desc: fmt.Sprintf("authz grant %d->%d limit=%s allow=%v", granter, grantee, coins, allow), msg: msg,
+		after: func() {
+			l := map[int]sdkmath.Int{}
+			for d, v := range limit {
+				l[d] = v
+			}
+			g.grants[[2]int{granter, grantee}] = l
 		}}
 }
 
-func (g *c05Gen) mask() int {
-	if g.restr {
+func (g *c05Gen) opAuthzRevoke(granter, grantee int) c05Op {
+	e := g.e
+	msg := authz.NewMsgRevoke(e.addrs[granter], e.addrs[grantee], sdk.MsgTypeURL(&markertypes.MsgTransferRequest{}))
+	return c05Op{kind: "authz-revoke", term: fmt.Sprintf("MAuthzRevoke %d%%N %d%%N", granter, grantee),
+		desc: fmt.Sprintf("authz revoke %d->%d", granter, grantee), msg: &msg,
+		after: func() { delete(g.grants, [2]int{granter, grantee}) }}
+}
+
+func (g *c05Gen) opBeginBlock() c05Op {
+	return c05Op{kind: "begin-block", term: "MBeginBlock", desc: "begin block"}
+}
+
+func (g *c05Gen) mask(restr bool) int {
+	if restr {
 		return g.r.Intn(256)
 	}
 	if g.r.Intn(8) == 0 {
@@ -494,244 +700,470 @@ func (g *c05Gen) mask() int {
 	return g.r.Intn(64)
 }
 
-// richest returns a user (1..4) holding coins, or -1.
-func (g *c05Gen) holderOfCoins(o c05Obs) int {
+// holderOfCoins returns a user (1..4) holding coins of the denom, or -1.
+func (g *c05Gen) holderOfCoins(x c05DObs) int {
 	start := g.r.Intn(4)
 	for i := 0; i < 4; i++ {
 		n := 1 + (start+i)%4
-		if o.bals[n].IsPositive() {
+		if x.bal(n).IsPositive() {
 			return n
 		}
 	}
 	return -1
 }
 
-// anyOp draws an operation without looking at the state (exercises the rejecting branches).
-func (g *c05Gen) anyOp(o c05Obs) c05Op {
+// foreign finds a marker account d holding coins of another denom x.
+func (g *c05Gen) foreign(o c05Obs) (d, x int, ok bool) {
+	s := g.r.Intn(g.nd * g.nd)
+	for i := 0; i < g.nd*g.nd; i++ {
+		k := (s + i) % (g.nd * g.nd)
+		d, x = k/g.nd, k%g.nd
+		if d != x && o.den[x].bal(c05Esc(d)).IsPositive() {
+			return d, x, true
+		}
+	}
+	return 0, 0, false
+}
+
+// anyOp draws an operation on denom d without looking at the state (exercises the rejecting branches).
+func (g *c05Gen) anyOp(d int, o c05Obs) c05Op {
+	x := o.den[d]
 	switch g.r.Intn(20) {
 	case 0:
-		return g.opAdd(false)
+		return g.opAdd(d, false, o)
 	case 1:
-		return g.opAdd(true)
+		return g.opAdd(d, true, o)
 	case 2:
-		return g.opAddFinAct()
+		return g.opAddFinAct(d, o)
 	case 3:
-		return g.simple("finalize", g.mgr())
+		return g.simple(d, "finalize", g.mgr(d))
 	case 4:
-		return g.simple("activate", g.mgr())
+		return g.simple(d, "activate", g.mgr(d))
 	case 5:
-		return g.opMint(g.holder(), g.small())
+		return g.opMint(d, g.holder(), g.small())
 	case 6:
-		return g.opBurn(g.holder(), g.around(o.bals[0]))
+		return g.opBurn(d, g.holder(), g.around(x.bal(c05Esc(d))))
 	case 7:
-		return g.opWithdraw(g.holder(), g.target(), g.around(o.bals[0]))
+		return g.opWithdraw(d, g.holder(), g.target(d), g.around(x.bal(c05Esc(d))))
 	case 8:
-		return g.simple("cancel", g.holder())
+		return g.simple(d, "cancel", g.holder())
 	case 9:
-		return g.simple("delete", g.holder())
+		return g.simple(d, "delete", g.holder())
 	case 10:
 		f := g.user()
-		return g.opTransfer(g.holder(), f, g.target(), g.around(o.bals[f]))
+		return g.opTransfer(d, g.holder(), f, g.target(d), g.around(x.bal(f)))
 	case 11:
-		return g.opGrant(g.holder(), g.user(), g.mask())
+		return g.opGrant(d, g.holder(), g.user(), g.mask(x.restr))
 	case 12:
-		return g.opRevoke(g.holder(), g.user())
+		return g.opRevoke(d, g.holder(), g.user())
 	case 13:
 		t := -1
 		if g.r.Intn(2) == 0 {
 			t = g.user()
 		}
-		return g.opGovInc(g.authority(), g.small(), t)
+		return g.opGovInc(d, g.authority(), g.small(), t)
 	case 14:
-		return g.opGovDec(g.authority(), g.around(o.bals[0]))
+		return g.opGovDec(d, g.authority(), g.around(x.bal(c05Esc(d))))
 	case 15:
-		return g.opGovStatus(g.authority(), 1+g.r.Intn(5))
+		return g.opGovStatus(d, g.authority(), 1+g.r.Intn(5))
 	case 16:
-		return g.opGovWithdraw(g.authority(), g.target(), g.around(o.bals[0]))
+		return g.opGovWithdraw(d, g.authority(), g.target(d), g.around(x.bal(c05Esc(d))))
 	case 17:
 		f := g.user()
-		return g.opSend(f, g.target(), g.around(o.bals[f]))
+		return g.opSend(d, f, g.target(d), g.around(x.bal(f)))
 	case 18:
 		if g.r.Intn(2) == 0 {
-			return g.opGovSetAdmin(g.authority(), g.user(), g.mask())
+			return g.opGovSetAdmin(d, g.authority(), g.user(), g.mask(x.restr))
 		}
-		return g.opGovRemoveAdmin(g.authority(), g.user())
+		return g.opGovRemoveAdmin(d, g.authority(), g.user())
 	default:
-		return g.opBeginBlock()
+		e := g.otherDenom(d)
+		if g.r.Intn(2) == 0 {
+			return g.opWithdrawOther(d, g.holder(), g.user(), e, g.around(o.den[e].bal(c05Esc(d))))
+		}
+		return g.opGovWithdrawOther(g.authority(), d, g.user(), e, g.around(o.den[e].bal(c05Esc(d))))
 	}
 }
 
-func (g *c05Gen) headroom(o c05Obs) sdkmath.Int {
-	h := g.maxs.Sub(o.supply)
+func (g *c05Gen) headroom(o c05Obs, d int) sdkmath.Int {
+	h := o.maxs.Sub(o.den[d].supply)
 	if h.IsNegative() {
 		return sdkmath.ZeroInt()
 	}
 	return h
 }
 
+// transfer draws a MsgTransfer on the active restricted marker d that is meant to succeed:
+// the holder of every right moves its own coins, forces a transfer, or uses an authz grant.
+func (g *c05Gen) transfer(d int, o c05Obs) (c05Op, bool) {
+	x := o.den[d]
+	r := g.r
+	to := g.user()
+	if r.Intn(8) == 0 {
+		to = g.target(d)
+	}
+	// a granted pair first
+	if r.Intn(3) != 0 {
+		for _, k := range g.grantKeys() {
+			if r.Intn(2) == 0 {
+				if op, ok := g.grantedTransfer(d, o, k, to); ok {
+					return op, true
+				}
+			}
+		}
+	}
+	if x.bal(1).IsPositive() && r.Intn(2) == 0 {
+		return g.opTransfer(d, 1, 1, to, g.within(x.bal(1))), true
+	}
+	if f := g.holderOfCoins(x); f > 0 {
+		adm := 1
+		if r.Intn(12) == 0 {
+			adm = f
+		}
+		if adm != f && !x.forced && !g.grantLeft(f, adm, d).IsPositive() && r.Intn(10) != 0 {
+			// moving somebody else's coins without forced transfer needs that holder's authz grant first
+			lim := x.bal(f).AddRaw(int64(r.Intn(40)))
+			if r.Intn(2) == 0 {
+				lim = g.within(x.bal(f)) // a limit below the balance: the grant runs out before the coins do
+			}
+			return g.opAuthzGrant(f, adm, map[int]sdkmath.Int{d: lim}, nil), true
+		}
+		amt := g.within(x.bal(f))
+		if adm != f && !x.forced {
+			if left := g.grantLeft(f, adm, d); left.IsPositive() && r.Intn(5) != 0 {
+				amt = g.within(sdkmath.MinInt(left, x.bal(f)))
+			}
+		}
+		op := g.opTransfer(d, adm, f, to, amt)
+		if adm != f && !x.forced {
+			op.after = func() { g.usedGrant(f, adm, d, amt) }
+		}
+		return op, true
+	}
+	return c05Op{}, false
+}
+
+// grantedTransfer moves coins of the granter k[0] by the grantee k[1] under their authz grant:
+// within what is left of the limit, exactly all of it, or just past it.
+func (g *c05Gen) grantedTransfer(d int, o c05Obs, k [2]int, to int) (c05Op, bool) {
+	x := o.den[d]
+	r := g.r
+	f, a := k[0], k[1]
+	left := g.grantLeft(f, a, d)
+	if !x.bal(f).IsPositive() || !left.IsPositive() {
+		return c05Op{}, false
+	}
+	cap := sdkmath.MinInt(left, x.bal(f))
+	amt := g.within(cap)
+	switch r.Intn(6) {
+	case 0, 1:
+		amt = cap // use the grant up
+	case 2:
+		// past what is left of the limit (refused unless the limit was not decreased)
+		if x.bal(f).GT(left) {
+			amt = left.AddRaw(1)
+		} else {
+			amt = g.within(x.bal(f))
+		}
+	}
+	op := g.opTransfer(d, a, f, to, amt)
+	if !x.forced {
+		op.after = func() { g.usedGrant(f, a, d, amt) }
+	}
+	return op, true
+}
+
+// worldOp draws an operation that is not aimed at one marker's own coins.
+func (g *c05Gen) worldOp(o c05Obs) (c05Op, bool) {
+	r := g.r
+	switch x := r.Intn(100); {
+	case x < 8:
+		var m sdkmath.Int
+		d := r.Intn(g.nd)
+		switch r.Intn(8) {
+		case 0:
+			m = sdkmath.NewInt(1000)
+		case 1:
+			m = sdkmath.NewInt(100000)
+		case 2:
+			m = o.den[d].supply // exactly the supply of a denom: no head-room left
+		case 3:
+			m = o.den[d].supply.QuoRaw(2) // below the supply of a denom
+		case 4:
+			m = o.den[d].supply.AddRaw(int64(1 + r.Intn(50)))
+		case 5:
+			m = sdkmath.ZeroInt()
+		case 6:
+			m = sdkmath.NewInt(-1)
+		default:
+			m = sdkmath.NewIntFromBigInt(new(big.Int).Exp(big.NewInt(10), big.NewInt(20), nil))
+		}
+		return g.opSetParams(g.authority(), m, r.Intn(4) != 0, o), true
+	case x < 45:
+		// authz grant from a holder of restricted coins to the administrator (or somebody else)
+		granter := g.user()
+		for d := 0; d < g.nd; d++ {
+			if o.den[d].has && o.den[d].restr && o.den[d].status == 3 {
+				if f := g.holderOfCoins(o.den[d]); f > 1 {
+					granter = f
+				}
+			}
+		}
+		grantee := 1
+		if r.Intn(6) == 0 {
+			grantee = g.user()
+		}
+		limit := map[int]sdkmath.Int{}
+		for d := 0; d < g.nd; d++ {
+			if r.Intn(3) != 0 {
+				limit[d] = g.within(o.den[d].bal(granter)).AddRaw(int64(r.Intn(30)))
+			}
+		}
+		if r.Intn(15) == 0 {
+			limit = map[int]sdkmath.Int{} // invalid: empty limit
+		}
+		if r.Intn(25) == 0 {
+			limit[r.Intn(g.nd)] = sdkmath.ZeroInt() // invalid: zero coin
+		}
+		var allow []int
+		if r.Intn(4) == 0 {
+			allow = append(allow, g.user())
+			if r.Intn(2) == 0 {
+				allow = append(allow, g.user()) // possibly a duplicate: invalid
+			}
+			if r.Intn(3) == 0 {
+				allow = append(allow, c05Esc(r.Intn(g.nd)))
+			}
+		}
+		return g.opAuthzGrant(granter, grantee, limit, allow), true
+	case x < 50:
+		for _, k := range g.grantKeys() {
+			return g.opAuthzRevoke(k[0], k[1]), true
+		}
+		return g.opAuthzRevoke(g.user(), g.user()), true
+	case x < 85:
+		if d, e, ok := g.foreign(o); ok {
+			amt := g.within(o.den[e].bal(c05Esc(d)))
+			if r.Intn(4) == 0 {
+				return g.opGovWithdrawOther(g.authority(), d, g.user(), e, amt), true
+			}
+			return g.opWithdrawOther(d, g.holder(), g.user(), e, amt), true
+		}
+		return c05Op{}, false
+	default:
+		return g.opBeginBlock(), true
+	}
+}
+
 // next draws the next operation, mostly one that makes sense in the observed state.
 func (g *c05Gen) next(o c05Obs) c05Op {
 	r := g.r
-	if r.Intn(100) < 12 {
-		return g.anyOp(o)
+	if r.Intn(100) < 9 {
+		if op, ok := g.worldOp(o); ok {
+			return op
+		}
 	}
-	if !o.has {
-		switch x := r.Intn(100); {
-		case x < 40:
-			return g.opAdd(false)
-		case x < 65:
-			return g.opAddFinAct()
-		case x < 85:
-			return g.opAdd(true)
-		case x < 95:
-			if f := g.holderOfCoins(o); f > 0 {
-				return g.opSend(f, g.target(), g.around(o.bals[f]))
+	if len(g.grants) > 0 && r.Intn(100) < 10 {
+		// keep using live authz grants on active restricted markers without forced transfer,
+		// so that limits are run down, exhausted and exceeded
+		for _, k := range g.grantKeys() {
+			for d := 0; d < g.nd; d++ {
+				if x := o.den[d]; x.has && x.status == 3 && x.restr && !x.forced {
+					if op, ok := g.grantedTransfer(d, o, k, g.user()); ok {
+						return op
+					}
+				}
 			}
-			return g.opAdd(false)
+		}
+	}
+	d := r.Intn(g.nd)
+	x := o.den[d]
+	esc := c05Esc(d)
+	if r.Intn(100) < 11 {
+		return g.anyOp(d, o)
+	}
+	if !x.has {
+		switch y := r.Intn(100); {
+		case y < 40:
+			return g.opAdd(d, false, o)
+		case y < 65:
+			return g.opAddFinAct(d, o)
+		case y < 85:
+			return g.opAdd(d, true, o)
+		case y < 95:
+			if f := g.holderOfCoins(x); f > 0 {
+				return g.opSend(d, f, g.target(d), g.around(x.bal(f)))
+			}
+			return g.opAdd(d, false, o)
 		default:
 			return g.opBeginBlock()
 		}
 	}
-	g.restr = o.restr
-	switch o.status {
+	dg := g.dg[d]
+	switch x.status {
 	case 1, 2: // proposed, finalized
-		x := r.Intn(100)
+		y := r.Intn(100)
 		switch {
-		case x < 34:
-			if o.status == 1 {
-				return g.simple("finalize", g.mgr())
+		case y < 34:
+			if x.status == 1 {
+				return g.simple(d, "finalize", g.mgr(d))
 			}
-			return g.simple("activate", g.mgr())
-		case x < 46:
+			return g.simple(d, "activate", g.mgr(d))
+		case y < 46:
 			if r.Intn(4) == 0 {
-				return g.opMint(g.holder(), g.around(g.headroom(o)))
+				return g.opMint(d, g.holder(), g.around(g.headroom(o, d)))
 			}
-			return g.opMint(g.holder(), g.small())
-		case x < 58:
-			return g.opBurn(g.holder(), g.around(o.msupply))
-		case x < 64:
-			return g.simple("cancel", g.holder())
-		case x < 72:
-			return g.opGrant(g.mgr(), g.user(), g.mask())
-		case x < 76:
-			return g.opRevoke(g.mgr(), g.user())
-		case x < 85:
-			return g.opGovStatus(g.authority(), o.status+r.Intn(6-o.status))
-		case x < 90:
-			return g.opGovInc(g.authority(), g.small(), -1)
-		case x < 93:
-			return g.opGovDec(g.authority(), g.around(o.bals[0]))
-		case x < 96:
-			if f := g.holderOfCoins(o); f > 0 {
-				return g.opSend(f, g.target(), g.around(o.bals[f]))
+			return g.opMint(d, g.holder(), g.small())
+		case y < 58:
+			return g.opBurn(d, g.holder(), g.around(x.msupply))
+		case y < 64:
+			return g.simple(d, "cancel", g.holder())
+		case y < 72:
+			return g.opGrant(d, g.mgr(d), g.user(), g.mask(x.restr))
+		case y < 76:
+			return g.opRevoke(d, g.mgr(d), g.user())
+		case y < 85:
+			return g.opGovStatus(d, g.authority(), x.status+r.Intn(6-x.status))
+		case y < 90:
+			return g.opGovInc(d, g.authority(), g.small(), -1)
+		case y < 93:
+			return g.opGovDec(d, g.authority(), g.around(x.bal(esc)))
+		case y < 96:
+			if f := g.holderOfCoins(x); f > 0 {
+				return g.opSend(d, f, g.target(d), g.around(x.bal(f)))
 			}
 			return g.opBeginBlock()
 		default:
 			return g.opBeginBlock()
 		}
 	case 3: // active
-		if !g.recall && r.Intn(14) == 0 {
-			g.recall = true
+		if !dg.recall && r.Intn(16) == 0 {
+			dg.recall = true
 		}
-		if g.recall && r.Intn(100) < 75 {
-			if f := g.holderOfCoins(o); f > 0 {
-				amt := o.bals[f]
+		if dg.recall && r.Intn(100) < 75 {
+			// bring everything back into the marker's own account, other markers' accounts included
+			for e := 0; e < g.nd; e++ {
+				if e != d && x.bal(c05Esc(e)).IsPositive() && r.Intn(2) == 0 {
+					if o.den[e].has && o.den[e].status == 3 && r.Intn(3) != 0 {
+						return g.opWithdrawOther(e, g.holder(), esc, d, x.bal(c05Esc(e)))
+					}
+					return g.opGovWithdrawOther(g.authority(), e, esc, d, x.bal(c05Esc(e)))
+				}
+			}
+			if f := g.holderOfCoins(x); f > 0 {
+				amt := x.bal(f)
 				if r.Intn(6) == 0 {
 					amt = g.around(amt)
 				}
-				if o.restr && r.Intn(3) != 0 {
+				if x.restr && r.Intn(3) != 0 {
 					adm := 1
-					if r.Intn(5) == 0 {
+					if r.Intn(8) == 0 {
 						adm = f
 					}
-					return g.opTransfer(adm, f, 0, amt)
+					if adm != f && !x.forced && g.grantLeft(f, adm, d).LT(amt) && r.Intn(10) != 0 {
+						return g.opAuthzGrant(f, adm, map[int]sdkmath.Int{d: x.bal(f).AddRaw(int64(r.Intn(40)))}, nil)
+					}
+					op := g.opTransfer(d, adm, f, esc, amt)
+					if adm != f && !x.forced {
+						op.after = func() { g.usedGrant(f, adm, d, amt) }
+					}
+					return op
 				}
-				return g.opSend(f, 0, amt)
+				return g.opSend(d, f, esc, amt)
 			}
 			if r.Intn(3) != 0 {
-				return g.simple("cancel", g.holder())
+				return g.simple(d, "cancel", g.holder())
 			}
-			return g.opGovStatus(g.authority(), 4)
+			return g.opGovStatus(d, g.authority(), 4)
 		}
-		x := r.Intn(100)
+		y := r.Intn(100)
 		switch {
-		case x < 12:
+		case y < 12:
 			if r.Intn(3) == 0 {
-				return g.opMint(g.holder(), g.around(g.headroom(o)))
+				return g.opMint(d, g.holder(), g.around(g.headroom(o, d)))
 			}
-			return g.opMint(g.holder(), g.small())
-		case x < 22:
-			return g.opBurn(g.holder(), g.around(o.bals[0]))
-		case x < 42:
-			return g.opWithdraw(g.holder(), g.target(), g.around(o.bals[0]))
-		case x < 56:
-			if f := g.holderOfCoins(o); f > 0 {
-				return g.opSend(f, g.target(), g.around(o.bals[f]))
+			return g.opMint(d, g.holder(), g.small())
+		case y < 21:
+			return g.opBurn(d, g.holder(), g.around(x.bal(esc)))
+		case y < 40:
+			return g.opWithdraw(d, g.holder(), g.target(d), g.around(x.bal(esc)))
+		case y < 52:
+			if f := g.holderOfCoins(x); f > 0 {
+				return g.opSend(d, f, g.target(d), g.around(x.bal(f)))
 			}
-			return g.opWithdraw(g.holder(), g.user(), g.around(o.bals[0]))
-		case x < 64:
-			if o.restr && o.bals[1].IsPositive() && r.Intn(2) == 0 {
-				// the holder of every right moves its own coins
-				return g.opTransfer(1, 1, g.target(), g.around(o.bals[1]))
-			}
-			if f := g.holderOfCoins(o); f > 0 {
-				adm := f
-				if r.Intn(3) == 0 {
-					adm = g.holder()
+			return g.opWithdraw(d, g.holder(), g.user(), g.around(x.bal(esc)))
+		case y < 66:
+			if x.restr {
+				if op, ok := g.transfer(d, o); ok {
+					return op
 				}
-				return g.opTransfer(adm, f, g.target(), g.around(o.bals[f]))
+				return g.opWithdraw(d, g.holder(), g.user(), g.within(x.bal(esc)))
+			}
+			if f := g.holderOfCoins(x); f > 0 {
+				return g.opSend(d, f, g.target(d), g.within(x.bal(f)))
 			}
 			return g.opBeginBlock()
-		case x < 69:
-			return g.simple("cancel", g.holder())
-		case x < 73:
-			return g.opGrant(g.holder(), g.user(), g.mask())
-		case x < 75:
-			return g.opRevoke(g.holder(), g.user())
-		case x < 80:
+		case y < 71:
+			return g.simple(d, "cancel", g.holder())
+		case y < 75:
+			return g.opGrant(d, g.holder(), g.user(), g.mask(x.restr))
+		case y < 77:
+			return g.opRevoke(d, g.holder(), g.user())
+		case y < 82:
 			t := -1
 			if r.Intn(2) == 0 {
 				t = g.user()
 			}
 			if r.Intn(3) == 0 {
-				return g.opGovInc(g.authority(), g.around(g.headroom(o)), t)
+				return g.opGovInc(d, g.authority(), g.around(g.headroom(o, d)), t)
 			}
-			return g.opGovInc(g.authority(), g.small(), t)
-		case x < 84:
-			return g.opGovDec(g.authority(), g.around(o.bals[0]))
-		case x < 88:
-			return g.opGovStatus(g.authority(), []int{2, 3, 3, 4, 4, 5}[r.Intn(6)])
-		case x < 92:
-			return g.opGovWithdraw(g.authority(), g.target(), g.around(o.bals[0]))
-		case x < 94:
-			return g.opGovSetAdmin(g.authority(), g.user(), g.mask())
-		case x < 95:
-			return g.opGovRemoveAdmin(g.authority(), g.user())
+			return g.opGovInc(d, g.authority(), g.small(), t)
+		case y < 86:
+			return g.opGovDec(d, g.authority(), g.around(x.bal(esc)))
+		case y < 90:
+			return g.opGovStatus(d, g.authority(), []int{2, 3, 3, 4, 4, 5}[r.Intn(6)])
+		case y < 93:
+			return g.opGovWithdraw(d, g.authority(), g.target(d), g.around(x.bal(esc)))
+		case y < 95:
+			return g.opGovSetAdmin(d, g.authority(), g.user(), g.mask(x.restr))
+		case y < 96:
+			return g.opGovRemoveAdmin(d, g.authority(), g.user())
 		default:
 			return g.opBeginBlock()
 		}
 	case 4: // cancelled
-		x := r.Intn(100)
+		y := r.Intn(100)
 		switch {
-		case x < 40:
+		case y < 36:
 			c := g.holder()
-			if g.manager > 0 && r.Intn(3) == 0 {
-				c = g.manager
+			if dg.manager > 0 && r.Intn(3) == 0 {
+				c = dg.manager
 			}
-			return g.simple("delete", c)
-		case x < 58:
-			return g.opGovStatus(g.authority(), 4+r.Intn(2))
-		case x < 63:
-			return g.simple("cancel", g.holder())
-		case x < 71:
-			return g.opGovWithdraw(g.authority(), g.target(), g.around(o.bals[0]))
-		case x < 77:
-			return g.opGovDec(g.authority(), g.around(o.bals[0]))
-		case x < 82:
-			return g.opMint(g.holder(), g.small())
-		case x < 88:
-			if f := g.holderOfCoins(o); f > 0 {
-				return g.opSend(f, 0, o.bals[f])
+			return g.simple(d, "delete", c)
+		case y < 52:
+			return g.opGovStatus(d, g.authority(), 4+r.Intn(2))
+		case y < 57:
+			return g.simple(d, "cancel", g.holder())
+		case y < 65:
+			return g.opGovWithdraw(d, g.authority(), g.target(d), g.around(x.bal(esc)))
+		case y < 73:
+			// other markers' coins must leave the account before it can be deleted
+			for e := 0; e < g.nd; e++ {
+				if e != d && o.den[e].bal(esc).IsPositive() {
+					if r.Intn(3) == 0 {
+						return g.opWithdrawOther(d, g.holder(), g.user(), e, o.den[e].bal(esc))
+					}
+					return g.opGovWithdrawOther(g.authority(), d, g.user(), e, o.den[e].bal(esc))
+				}
+			}
+			return g.opGovDec(d, g.authority(), g.around(x.bal(esc)))
+		case y < 78:
+			return g.opGovDec(d, g.authority(), g.around(x.bal(esc)))
+		case y < 82:
+			return g.opMint(d, g.holder(), g.small())
+		case y < 88:
+			if f := g.holderOfCoins(x); f > 0 {
+				return g.opSend(d, f, esc, x.bal(f))
 			}
 			return g.opBeginBlock()
 		default:
@@ -741,19 +1173,155 @@ func (g *c05Gen) next(o c05Obs) c05Op {
 		if r.Intn(100) < 60 {
 			return g.opBeginBlock()
 		}
-		return g.anyOp(o)
+		return g.anyOp(d, o)
 	}
+}
+
+// c05Script runs a fixed history (the edges shown as Examples in coq/Properties/C05.v) on the real
+// code and emits it like any generated history, so that every run ties those Examples to /repo.
+func c05Script(e *c05Env, w *CaseWriter, r *rand.Rand, name string, nd int, maxs int64, ops []func(g *c05Gen, o c05Obs) c05Op) {
+	ctx, _ := e.base.CacheContext()
+	params := e.app.MarkerKeeper.GetParams(ctx)
+	params.MaxSupply = sdkmath.NewInt(maxs)
+	params.EnableGovernance = true
+	e.app.MarkerKeeper.SetParams(ctx, params)
+	g := &c05Gen{e: e, r: r, nd: nd, grants: map[[2]int]map[int]sdkmath.Int{}}
+	for d := 0; d < nd; d++ {
+		g.dg = append(g.dg, &c05DGen{manager: -1})
+	}
+	o0 := e.observe(ctx, nd)
+	prev := o0
+	var steps, descs []string
+	for _, mk := range ops {
+		op := mk(g, prev)
+		cctx, write := ctx.CacheContext()
+		var err error
+		if op.msg == nil {
+			err = try(func() error { marker.BeginBlocker(cctx, e.app.MarkerKeeper, e.app.BankKeeper); return nil })
+		} else {
+			err = c05Deliver(e.app, cctx, op.msg)
+		}
+		if err == nil {
+			write()
+		}
+		cur := e.observe(ctx, nd)
+		steps = append(steps, fmt.Sprintf("(%s, %s)", op.term, cur.coq(err == nil)))
+		descs = append(descs, fmt.Sprintf("%s -> %v", op.desc, err == nil))
+		prev = cur
+	}
+	var dn []string
+	for d := 0; d < nd; d++ {
+		dn = append(dn, fmt.Sprintf("%d%%N", d))
+	}
+	w.Add(fmt.Sprintf("CHist %s %s %s", coqList(dn), o0.coq(true), coqList(steps)),
+		map[string]any{"scripted": name, "denoms": c05Denoms[:nd], "max_supply": fmt.Sprint(maxs), "steps": descs})
+	w.Count("scripted_histories")
+	w.Nontrivial("script/" + name)
+}
+
+func c05Scripts(e *c05Env, w *CaseWriter, r *rand.Rand) {
+	type mkop = func(g *c05Gen, o c05Obs) c05Op
+	n := func(v int64) sdkmath.Int { return sdkmath.NewInt(v) }
+	addFinAct := func(d int, amt int64, fixed, gov, restricted, forced bool, acl [][2]int) mkop {
+		return func(g *c05Gen, o c05Obs) c05Op {
+			t, tn := markertypes.MarkerType_Coin, "Coin"
+			if restricted {
+				t, tn = markertypes.MarkerType_RestrictedCoin, "Restricted"
+			}
+			msg := &markertypes.MsgAddFinalizeActivateMarkerRequest{
+				Amount: c05Coin(d, n(amt)), Manager: e.addrs[1].String(), FromAddress: e.addrs[1].String(), MarkerType: t,
+				AccessList: g.grantsOf(acl), SupplyFixed: fixed, AllowGovernanceControl: gov, AllowForcedTransfer: forced,
+			}
+			return c05Op{kind: "add-finalize-activate", msg: msg,
+				term: on(d, fmt.Sprintf("OAddFinAct %s %s %s %s %s %s %s", zInt(n(amt)), coqBool(fixed), coqBool(gov), tn, coqBool(forced), c05OptAddr(1), c05Acl(acl))),
+				desc: fmt.Sprintf("[%s] add-finalize-activate supply=%d fixed=%v gov=%v type=%s forced=%v manager=1 acl=%v", c05Denoms[d], amt, fixed, gov, tn, forced, acl)}
+		}
+	}
+	addProposed := func(d int, amt int64, acl [][2]int) mkop {
+		return func(g *c05Gen, o c05Obs) c05Op {
+			msg := &markertypes.MsgAddMarkerRequest{Amount: c05Coin(d, n(amt)), Manager: e.addrs[1].String(), FromAddress: e.addrs[1].String(),
+				Status: markertypes.StatusProposed, MarkerType: markertypes.MarkerType_Coin, AccessList: g.grantsOf(acl), SupplyFixed: true}
+			return c05Op{kind: "add", msg: msg,
+				term: on(d, fmt.Sprintf("OAdd 1%%N Proposed %s true false Coin false (Some 1%%N) %s", zInt(n(amt)), c05Acl(acl))),
+				desc: fmt.Sprintf("[%s] add proposed supply=%d fixed acl=%v", c05Denoms[d], amt, acl)}
+		}
+	}
+	all := [][2]int{{1, 63}}
+	allR := [][2]int{{1, 255}}
+	// Example C05_governance_cancel_skips_recall
+	c05Script(e, w, r, "governance cancel skips recall", 2, 1000, []mkop{
+		addFinAct(0, 100, true, true, false, false, all),
+		func(g *c05Gen, o c05Obs) c05Op { return g.opWithdraw(0, 1, 2, n(40)) },
+		func(g *c05Gen, o c05Obs) c05Op { return g.simple(0, "cancel", 1) },
+		func(g *c05Gen, o c05Obs) c05Op { return g.opGovStatus(0, 100, 4) },
+	})
+	// Example C05_max_not_enforced_at_activation
+	c05Script(e, w, r, "max supply not enforced at activation", 2, 1000, []mkop{
+		addProposed(0, 900, all),
+		func(g *c05Gen, o c05Obs) c05Op { return g.opMint(0, 1, n(600)) },
+		func(g *c05Gen, o c05Obs) c05Op { return g.simple(0, "finalize", 1) },
+		func(g *c05Gen, o c05Obs) c05Op { return g.simple(0, "activate", 1) },
+		func(g *c05Gen, o c05Obs) c05Op { return g.opMint(0, 1, n(1)) },
+		func(g *c05Gen, o c05Obs) c05Op { return g.opBurn(0, 1, n(501)) },
+		func(g *c05Gen, o c05Obs) c05Op { return g.opMint(0, 1, n(1)) },
+		func(g *c05Gen, o c05Obs) c05Op { return g.opMint(0, 1, n(1)) },
+	})
+	// Example C05_reactivation_ignores_max
+	c05Script(e, w, r, "governance re-activation of a floating marker ignores max supply", 2, 1000, []mkop{
+		addFinAct(0, 800, false, true, false, false, all),
+		func(g *c05Gen, o c05Obs) c05Op { return g.opBurn(0, 1, n(700)) },
+		func(g *c05Gen, o c05Obs) c05Op { return g.opSetParams(100, n(200), true, o) },
+		func(g *c05Gen, o c05Obs) c05Op { return g.opMint(0, 1, n(101)) },
+		func(g *c05Gen, o c05Obs) c05Op { return g.opGovStatus(0, 100, 3) },
+		func(g *c05Gen, o c05Obs) c05Op { return g.opBeginBlock() },
+	})
+	// Example C05_witness (two markers, cross-holding, parameter change, authz, recall, delete, removal)
+	c05Script(e, w, r, "witness: two markers through to removal", 2, 1000, []mkop{
+		func(g *c05Gen, o c05Obs) c05Op { return g.opSend(0, 3, 3, n(1)) }, // nothing there yet: refused
+		addFinAct(0, 100, true, false, true, true, allR),
+		addFinAct(1, 500, false, true, false, false, all),
+		func(g *c05Gen, o c05Obs) c05Op { return g.opWithdraw(0, 1, 2, n(40)) },
+		func(g *c05Gen, o c05Obs) c05Op { return g.opMint(0, 1, n(10)) },
+		func(g *c05Gen, o c05Obs) c05Op { return g.opBurn(0, 1, n(5)) },
+		func(g *c05Gen, o c05Obs) c05Op { return g.opWithdraw(1, 1, c05Esc(0), n(25)) },
+		func(g *c05Gen, o c05Obs) c05Op { return g.opSetParams(100, n(50), true, o) },
+		func(g *c05Gen, o c05Obs) c05Op { return g.opMint(0, 1, n(1)) },
+		func(g *c05Gen, o c05Obs) c05Op { return g.opBurn(0, 1, n(1)) },
+		func(g *c05Gen, o c05Obs) c05Op { return g.simple(0, "cancel", 1) },
+		func(g *c05Gen, o c05Obs) c05Op {
+			return g.opAuthzGrant(2, 4, map[int]sdkmath.Int{0: n(30)}, nil)
+		},
+		func(g *c05Gen, o c05Obs) c05Op { return g.opTransfer(0, 4, 2, c05Esc(0), n(30)) },
+		func(g *c05Gen, o c05Obs) c05Op { return g.opGovSetAdmin(0, 100, 4, 68) },
+		func(g *c05Gen, o c05Obs) c05Op { return g.opTransfer(0, 4, 2, c05Esc(0), n(30)) },
+		func(g *c05Gen, o c05Obs) c05Op { return g.opTransfer(0, 4, 2, c05Esc(0), n(1)) },
+		func(g *c05Gen, o c05Obs) c05Op { return g.opTransfer(0, 1, 2, c05Esc(0), n(10)) },
+		func(g *c05Gen, o c05Obs) c05Op { return g.simple(0, "cancel", 1) },
+		func(g *c05Gen, o c05Obs) c05Op { return g.simple(0, "delete", 1) },
+		func(g *c05Gen, o c05Obs) c05Op { return g.opWithdrawOther(0, 1, 4, 1, n(25)) },
+		func(g *c05Gen, o c05Obs) c05Op { return g.opGovWithdrawOther(100, 0, 4, 1, n(25)) },
+		func(g *c05Gen, o c05Obs) c05Op { return g.simple(0, "delete", 1) },
+		func(g *c05Gen, o c05Obs) c05Op { return g.opBeginBlock() },
+		func(g *c05Gen, o c05Obs) c05Op { return g.opMint(1, 1, n(1)) },
+	})
 }
 
 func TestC05(t *testing.T) {
 	r := newRand("C05")
-	w := NewCaseWriter("C05", "PV.Corr.C05", "check_all", 100)
+	w := NewCaseWriter("C05", "PV.Corr.C05", "check_all", 60)
 	app, base := newApp(t)
-	e := &c05Env{t: t, app: app, base: base, addrs: map[int]sdk.AccAddress{}}
-	e.addrs[0] = markertypes.MustGetMarkerAddress(c05Denom)
+	base = base.WithBlockTime(time.Unix(1_700_000_000, 0).UTC())
+	e := &c05Env{t: t, app: app, base: base, addrs: map[int]sdk.AccAddress{}, ids: map[string]int{}, voter: addrN(0)}
+	reg := func(n int, a sdk.AccAddress) {
+		e.addrs[n] = a
+		e.ids[string(a)] = n
+	}
+	for d := range c05Denoms {
+		reg(c05Esc(d), markertypes.MustGetMarkerAddress(c05Denoms[d]))
+	}
 	for i := 1; i <= 4; i++ {
 		a := addrN(500 + i)
-		e.addrs[i] = a
+		reg(i, a)
 		acc := app.AccountKeeper.NewAccount(base, authtypes.NewBaseAccountWithAddress(a))
 		// every user has signed before: forced transfers out of their accounts are possible
 		if err := acc.SetSequence(1); err != nil {
@@ -761,15 +1329,26 @@ func TestC05(t *testing.T) {
 		}
 		app.AccountKeeper.SetAccount(base, acc)
 	}
-	e.addrs[99] = authtypes.NewModuleAddress(markertypes.ModuleName)
-	e.addrs[100] = authtypes.NewModuleAddress(govtypes.ModuleName)
+	reg(99, authtypes.NewModuleAddress(markertypes.ModuleName))
+	reg(100, authtypes.NewModuleAddress(govtypes.ModuleName))
+	if app.MarkerKeeper.GetAuthority() != e.addrs[100].String() {
+		t.Fatalf("marker authority is not the gov module account")
+	}
+	gp, err := app.GovKeeper.Params.Get(base)
+	if err != nil {
+		t.Fatal(err)
+	}
+	e.govDep = sdk.NewCoins(gp.MinDeposit...)
+	e.govVP = *gp.VotingPeriod
 
-	nHist := scale(500, 20000)
+	nHist := scale(400, 10000)
 	if s := os.Getenv("VERIF_C05_HISTORIES"); s != "" {
 		fmt.Sscanf(s, "%d", &nHist)
 	}
 	for hi := 0; hi < nHist; hi++ {
 		ctx, _ := base.CacheContext()
+		nd := 2 + r.Intn(2)
+		govRoute := hi%10 == 3
 		params := app.MarkerKeeper.GetParams(ctx)
 		switch r.Intn(4) {
 		case 0:
@@ -779,81 +1358,146 @@ func TestC05(t *testing.T) {
 		}
 		params.EnableGovernance = r.Intn(4) != 0
 		app.MarkerKeeper.SetParams(ctx, params)
-		g := &c05Gen{e: e, r: r, maxs: params.MaxSupply, manager: -1}
+		g := &c05Gen{e: e, r: r, nd: nd, grants: map[[2]int]map[int]sdkmath.Int{}}
+		for d := 0; d < nd; d++ {
+			g.dg = append(g.dg, &c05DGen{manager: -1})
+		}
 
-		// coins of the denom that exist before any marker does
+		// coins of the denoms that exist before any marker does (also in future marker accounts)
 		if r.Intn(4) == 0 {
-			for _, n := range []int{0, 2, 3} {
-				if r.Intn(2) == 0 {
-					fund(t, app, ctx, e.addrs[n], sdk.NewCoins(sdk.NewInt64Coin(c05Denom, int64(1+r.Intn(60)))))
+			for d := 0; d < nd; d++ {
+				for _, n := range []int{c05Esc(d), c05Esc((d + 1) % nd), 2, 3} {
+					if r.Intn(3) == 0 {
+						fund(t, app, ctx, e.addrs[n], sdk.NewCoins(sdk.NewInt64Coin(c05Denoms[d], int64(1+r.Intn(60)))))
+					}
 				}
 			}
 		}
-		o0 := e.observe(ctx)
+		o0 := e.observe(ctx, nd)
 		prev := o0
-		n := 5 + r.Intn(36)
+		n := 6 + r.Intn(20*nd)
 		var steps, descs []string
 		accepted := 0
-		sawActiveFixed, sawDestroyed, sawRemoved, sawCancelRecall := false, false, false, false
+		flags := map[string]bool{}
 		for i := 0; i < n; i++ {
 			op := g.next(prev)
 			cctx, write := ctx.CacheContext()
-			err := op.run(cctx)
+			var err error
+			viaGov := false
+			switch {
+			case op.msg == nil:
+				err = try(func() error { marker.BeginBlocker(cctx, e.app.MarkerKeeper, e.app.BankKeeper); return nil })
+			case govRoute && op.isGov:
+				viaGov = true
+				err = e.viaGov(cctx, op.msg)
+			default:
+				err = c05Deliver(e.app, cctx, op.msg)
+			}
 			if err == nil {
 				write()
 				accepted++
+				if op.after != nil {
+					op.after()
+				}
 				w.Count("accepted:" + op.kind)
 			} else {
 				w.Count("rejected:" + op.kind)
+				if os.Getenv("VERIF_C05_DEBUG") != "" {
+					fmt.Fprintf(os.Stderr, "REJ %s | %s | %v\n", op.kind, op.desc, err)
+				}
 			}
-			cur := e.observe(ctx)
+			if viaGov {
+				w.Count("via_real_gov_module:" + op.kind)
+				if err == nil {
+					w.Count("via_real_gov_module_accepted")
+				} else {
+					w.Count("via_real_gov_module_rejected")
+				}
+			}
+			cur := e.observe(ctx, nd)
 			steps = append(steps, fmt.Sprintf("(%s, %s)", op.term, cur.coq(err == nil)))
 			descs = append(descs, fmt.Sprintf("%s -> %v", op.desc, err == nil))
-			if cur.has && cur.status == 3 && cur.fixed {
-				sawActiveFixed = true
+			active := 0
+			for d := 0; d < nd; d++ {
+				p, c := prev.den[d], cur.den[d]
+				if c.has && c.status == 3 {
+					active++
+					if c.fixed {
+						flags["histories_with_active_fixed_marker"] = true
+					}
+					if c.supply.GT(cur.maxs) {
+						flags["histories_with_active_marker_above_max_supply"] = true
+					}
+				}
+				if c.has && c.status == 5 {
+					flags["histories_reaching_destroyed"] = true
+				}
+				if p.has && !c.has {
+					flags["histories_with_removal_at_begin_block"] = true
+				}
+				if err == nil && op.kind == "cancel" && p.has && (p.status == 2 || p.status == 3) && c.status == 4 && p.status != c.status {
+					flags["histories_with_admin_cancel_of_finalized_or_active"] = true
+				}
+				if err == nil && p.has && c.has && c.supply.GT(prev.maxs.SubRaw(3)) && c.supply.LTE(prev.maxs) && c.supply.GT(p.supply) && (op.kind == "mint" || op.kind == "gov-supply-increase") && p.status == 3 {
+					w.Count("mints_reaching_max_boundary")
+				}
+				for x := 0; x < nd; x++ {
+					if x != d && c.bal(c05Esc(x)).IsPositive() {
+						flags["histories_with_marker_holding_another_markers_coins"] = true
+					}
+				}
+				for n := range c.bals {
+					if n >= 5000 {
+						flags["histories_with_holder_outside_the_known_accounts"] = true
+					}
+				}
 			}
-			if cur.has && cur.status == 5 {
-				sawDestroyed = true
+			if active >= 2 {
+				flags["histories_with_two_active_markers"] = true
 			}
-			if prev.has && !cur.has {
-				sawRemoved = true
+			if err == nil && op.kind == "update-params" {
+				flags["histories_with_param_change"] = true
+				if cur.maxs.LT(prev.maxs) {
+					flags["histories_with_max_supply_lowered"] = true
+				}
 			}
-			if err == nil && op.kind == "cancel" && prev.has && (prev.status == 2 || prev.status == 3) && cur.status == 4 {
-				sawCancelRecall = true
-			}
-			if err == nil && prev.has && cur.has && cur.supply.GT(g.maxs.SubRaw(3)) && cur.supply.LTE(g.maxs) && (op.kind == "mint" || op.kind == "gov-supply-increase") && prev.status == 3 {
-				w.Count("mints_reaching_max_boundary")
+			if err == nil && op.kind == "transfer" {
+				// who moved whose coins: an accepted transfer of somebody else's coins on a marker
+				// without forced transfer can only have gone through an authz grant
+				var td, a, f int
+				fmt.Sscanf(op.term, "MTransfer %d%%N %d%%N %d%%N", &td, &a, &f)
+				switch {
+				case a == f:
+					w.Count("accepted_transfers_of_own_coins")
+				case td < nd && !prev.den[td].forced:
+					w.Count("accepted_transfers_under_authz_grant")
+				default:
+					w.Count("accepted_transfers_forced_or_authz")
+				}
 			}
 			prev = cur
 		}
-		accN := make([]string, len(c05Universe))
-		for i, a := range c05Universe {
-			accN[i] = fmt.Sprintf("%d%%N", a)
+		var dn []string
+		for d := 0; d < nd; d++ {
+			dn = append(dn, fmt.Sprintf("%d%%N", d))
 		}
-		term := fmt.Sprintf("CHist %s %s %s %s %s", coqList(accN), zInt(params.MaxSupply), coqBool(params.EnableGovernance), o0.coq(true), coqList(steps))
-		w.Add(term, map[string]any{"history": hi, "max_supply": params.MaxSupply.String(), "enable_governance": params.EnableGovernance,
-			"preexisting_supply": o0.supply.String(), "steps": descs})
+		term := fmt.Sprintf("CHist %s %s %s", coqList(dn), o0.coq(true), coqList(steps))
+		w.Add(term, map[string]any{"history": hi, "denoms": c05Denoms[:nd], "max_supply": params.MaxSupply.String(), "enable_governance": params.EnableGovernance,
+			"governance_messages_through_real_gov_module": govRoute, "steps": descs})
 		w.Count("histories")
+		w.Count(fmt.Sprintf("histories_with_%d_denoms", nd))
+		if govRoute {
+			w.Count("histories_with_real_gov_route")
+		}
 		w.CountN("history_steps", int64(n))
 		w.CountN("history_steps_accepted", int64(accepted))
-		if sawActiveFixed {
-			w.Count("histories_with_active_fixed_marker")
-		}
-		if sawDestroyed {
-			w.Count("histories_reaching_destroyed")
-		}
-		if sawRemoved {
-			w.Count("histories_with_removal_at_begin_block")
-		}
-		if sawCancelRecall {
-			w.Count("histories_with_admin_cancel_of_finalized_or_active")
-		}
-		if o0.supply.IsPositive() {
-			w.Count("histories_with_preexisting_coins")
+		for k := range flags {
+			w.Count(k)
 		}
 		if accepted >= 3 {
 			w.Nontrivial(fmt.Sprintf("hist/%s", strings.Join(descs, ";")))
 		}
 	}
+	c05Scripts(e, w, r)
 	w.Flush(t)
 }
